@@ -96,6 +96,9 @@ pub fn record(seed: u64, tier: &str, out: &str) {
     let thorough = tier == "thorough";
     let mut rng = Rng::new(seed ^ 0xC18);
     let mut t = TraceWriter::create(out);
+    // the crate asks for this call at the beginning of main (a no-op on Linux, where the default precision control
+    // is already the 64-bit significand)
+    rlib_f80::f80_init();
     let vals = boundary(thorough);
     // conversions: f64 -> f80 -> f64 on the boundary set and random bit patterns
     let mut convs: Vec<f64> = vals.clone();
